@@ -333,15 +333,36 @@ func runC43(c *core.Ctx) {
 	// ChangePassword
 	if fn := c.Fn(pkAccount, "ClientImpl.ChangePassword"); fn != nil {
 		var dec, enc *ssa.Call
-		for _, ci := range ir.Calls(fn, func(ci ssa.CallInstruction) bool {
-			o := ir.CalleeObj(ci)
-			return o != nil && o.Pkg() != nil && o.Pkg().Path() == keypairPath
-		}) {
-			switch ir.CalleeObj(ci).Name() {
-			case "DecryptWithCustomScrypt":
-				dec, _ = ci.(*ssa.Call)
-			case "EncryptWithCustomScrypt":
-				enc, _ = ci.(*ssa.Call)
+		pairHost := fn
+		findPair := func(host *ssa.Function) {
+			for _, ci := range ir.Calls(host, func(ci ssa.CallInstruction) bool {
+				o := ir.CalleeObj(ci)
+				return o != nil && o.Pkg() != nil && o.Pkg().Path() == keypairPath
+			}) {
+				switch ir.CalleeObj(ci).Name() {
+				case "DecryptWithCustomScrypt":
+					dec, _ = ci.(*ssa.Call)
+				case "EncryptWithCustomScrypt":
+					enc, _ = ci.(*ssa.Call)
+				}
+			}
+		}
+		findPair(fn)
+		if dec == nil && enc == nil {
+			// the decrypt / re-encrypt pair may stand in a same-package helper (its parameters bound to the call)
+			for _, ci := range ir.Calls(fn, nil) {
+				h := ci.Common().StaticCallee()
+				if h == nil || h == fn || h.Pkg != fn.Pkg || len(h.Blocks) == 0 {
+					continue
+				}
+				findPair(h)
+				if dec != nil && enc != nil {
+					pairHost = h
+					defer ir.BindParams(h, ci.Common().Args)()
+					c.Attribute(h, fn)
+					break
+				}
+				dec, enc = nil, nil
 			}
 		}
 		if dec == nil || enc == nil {
@@ -352,10 +373,16 @@ func runC43(c *core.Ctx) {
 			okPw := ir.Strip(dec.Common().Args[1]) == ssa.Value(fn.Params[2]) && ir.Strip(enc.Common().Args[2]) == ssa.Value(fn.Params[3])
 			okAddr := ir.Strip(enc.Common().Args[1]) == ssa.Value(fn.Params[1])
 			c.Decide(okFlow && okPw && okAddr, "C43.change-password", fn, "re-encrypts the key decrypted with the old password under the new one, same address", c.P.Rel(enc.Pos()), sprintf("flow %v passwords %v address %v", okFlow, okPw, okAddr))
-			eng.Dominates(c, "C43.change-password", fn, eng.NamedGuard{Name: "DecryptWithCustomScrypt(old password) err==nil", G: ir.ErrNil(func(x *ssa.Call) bool { return x == dec })}, []ir.Sink{{Instr: enc, Note: "re-encryption"}}, "re-encryption", nil)
+			eng.Dominates(c, "C43.change-password", pairHost, eng.NamedGuard{Name: "DecryptWithCustomScrypt(old password) err==nil", G: ir.ErrNil(func(x *ssa.Call) bool { return x == dec })}, []ir.Sink{{Instr: enc, Note: "re-encryption"}}, "re-encryption", nil)
 			var installs []ssa.CallInstruction
 			for _, ci := range ir.Calls(fn, func(ci ssa.CallInstruction) bool { o := ir.CalleeObj(ci); return o != nil && o.Name() == "SetKeyPair" }) {
-				if e2, i2 := ir.CallOf(ci.Common().Args[1]); e2 == enc && i2 == 0 {
+				arg := ci.Common().Args[1]
+				if pairHost != fn {
+					via, release := valueVia(arg)
+					release()
+					arg = via
+				}
+				if e2, i2 := ir.CallOf(arg); e2 == enc && i2 == 0 {
 					installs = append(installs, ci)
 				}
 			}
